@@ -44,6 +44,10 @@ def run(pid, tier, seed):
             for n in V.reject_lines(res):
                 e = json.loads(lines[n - 1])
                 neg = e.get("c", e.get("sec", [1]))[0] < 0
+                if e["e"] == "ParseLimit":
+                    verdict.violation("ParseLimit:%s:delta%+d%s" % ("upper" if e["hi"] else "lower", e["delta"], ":ub" if e["ub"] else ""),
+                                      "rejected by SplitTrace: " + lines[n - 1][:300], e)
+                    continue
                 verdict.violation("%s:num%d:%s%s" % (e["e"], e["num"], "before-epoch" if neg else "after-epoch", ":ub" if e["ub"] else ""),
                                   "rejected by SplitTrace: " + lines[n - 1][:300], e)
     V.log("[%s] %d events, %d rejected" % (pid, events, len(verdict.violations) + len(verdict.known)))
